@@ -17,7 +17,7 @@ _cache = {}
 
 
 def gen_case_matrix(rng, fmt, rich):
-    opts = {"floats": True, "limits": False, "cycle": False, "maxframes": 3, "comments": False, "unique_signal_names": fmt == "arxml", "lone_mux": True, "twin_ids": fmt != "xls", "negative_value_keys": True,
+    opts = {"floats": True, "limits": False, "cycle": False, "maxframes": 3, "comments": False, "unique_signal_names": fmt == "arxml", "lone_mux": True, "twin_ids": fmt != "xls", "negative_value_keys": True, "j1939_flag": True,
             "mux": fmt != "arxml", "lengths": [1, 2, 3, 4, 8, 8, 8, 12, 16, 64] if fmt in ("dbc", "json", "arxml", "sym", "kcd", "dbf", "xls") else [1, 2, 4, 8, 8, 8]}
     if rich:
         def rand_dec(nonzero):
